@@ -36,6 +36,9 @@ type xNode struct {
 	Typ string           `json:"t"` // A | B | Q
 	ID  int64            `json:"id"`
 	F   map[string]*xVal `json:"f"`
+	// one wrapper per node and execution (set by xPrewrap): an object reached on two paths is the same Go value,
+	// as it is when resolvers hand out cached pointers
+	wa *XA
 }
 
 type XA struct {
@@ -93,9 +96,39 @@ func xGoErrEnc(code int, safe bool) interface{} {
 	}
 }
 
+// xPrewrap gives every A node of the tree its wrapper (before execution starts: no races later).
+func xPrewrap(n *xNode, seen map[*xNode]bool) {
+	if n == nil || seen[n] {
+		return
+	}
+	seen[n] = true
+	var walk func(v *xVal)
+	walk = func(v *xVal) {
+		if v == nil {
+			return
+		}
+		if v.Node != nil {
+			xPrewrap(v.Node, seen)
+		}
+		for _, e := range v.List {
+			walk(e)
+		}
+	}
+	for _, v := range n.F {
+		walk(v)
+	}
+	if n.Typ == "A" {
+		n.wa = nil
+		n.wa = wrapA(n)
+	}
+}
+
 func wrapA(n *xNode) *XA {
 	if n == nil {
 		return nil
+	}
+	if n.wa != nil {
+		return n.wa
 	}
 	a := &XA{N: n}
 	if v := n.F["z"]; v != nil && v.Kind == "sc" {
@@ -201,6 +234,7 @@ func asBs(v *xVal) ([]*XB, error) {
 	}
 	return out, nil
 }
+
 // asBsV: the same list as values (sources then reach batch functions as values, not pointers)
 func asBsV(v *xVal) ([]XB, error) {
 	if v.Kind == "fail" {
@@ -229,14 +263,14 @@ func asUs(v *xVal) ([]*XU, error) {
 // ---- schema table ---------------------------------------------------------------------------
 
 type xField struct {
-	ID     int    // model name id (>= 1)
-	Obj    string // A | B | Q
-	Name   string // GraphQL field name
-	Src    string // logical datum
-	Ty     string // sc | ints | A | B | U | As | Bs | Us   (value type)
-	Mode   string // inline | external | expensive | batch | fallback
-	Par    int    // NumParallelInvocations (0: none)
-	SrcID  int
+	ID    int    // model name id (>= 1)
+	Obj   string // A | B | Q
+	Name  string // GraphQL field name
+	Src   string // logical datum
+	Ty    string // sc | ints | A | B | U | As | Bs | Us   (value type)
+	Mode  string // inline | external | expensive | batch | fallback
+	Par   int    // NumParallelInvocations (0: none)
+	SrcID int
 }
 
 var xFields []*xField
@@ -808,14 +842,14 @@ type xSelSet struct {
 }
 
 type xQuery struct {
-	Set   *xSelSet
-	Defs  map[string]*xFrag // named fragment definitions in use
-	Vars  map[string]interface{}
+	Set  *xSelSet
+	Defs map[string]*xFrag // named fragment definitions in use
+	Vars map[string]interface{}
 	// Defaults: declared default values of variables ($c: Boolean = true); a variable with a default may be
 	// supplied (the supplied value wins, also false over a default of true) or left out (the default counts)
 	Defaults map[string]bool
-	Text  string
-	alias map[string]int
+	Text     string
+	alias    map[string]int
 }
 
 type xQGen struct {
@@ -966,7 +1000,38 @@ func (g *xQGen) selSet(typ string, depth int) *xSelSet {
 			ss.Sels = append(ss.Sels, dup)
 		}
 	}
+	// the same object on two paths: an A-valued field under two aliases, and below both an Expensive object field
+	// under one alias with different sub-selections (what a cache keyed too coarsely would confuse)
+	if depth > 1 && g.r.Chance(0.12) {
+		var toA, expA *xField
+		for _, f := range fields {
+			if f.Ty == "A" && f.Mode != "batch" && f.Mode != "fallback" && toA == nil {
+				toA = f
+			}
+		}
+		for _, f := range xFieldsOf("A") {
+			if f.Ty == "A" && f.Mode == "expensive" {
+				expA = f
+			}
+		}
+		if prev, ok := used["k_"+fieldName(toA)]; toA != nil && expA != nil && (!ok || prev == toA) {
+			if prev0, ok0 := used[toA.Name]; !ok0 || prev0 == toA {
+				used[toA.Name], used["k_"+toA.Name] = toA, toA
+				for _, alias := range []string{toA.Name, "k_" + toA.Name} {
+					sub := &xSelSet{Sels: []*xSel{{Alias: expA.Name, Field: expA, Sub: g.selSet("A", depth-2)}}}
+					ss.Sels = append(ss.Sels, &xSel{Alias: alias, Field: toA, Sub: sub})
+				}
+			}
+		}
+	}
 	return ss
+}
+
+func fieldName(f *xField) string {
+	if f == nil {
+		return ""
+	}
+	return f.Name
 }
 
 // frag returns an inline fragment or a spread of a (possibly reused) named fragment.
